@@ -75,8 +75,8 @@ class VLoop(asyncio.SelectorEventLoop):
                     # with instant replies (no symbolic latency) a pending reply arrives before anything that takes time
                     if nxt is not None:
                         opts.append(('timer', None))
-                    for i in range(len(self.events)):
-                        opts.append(('event', i))
+                    if self.events:
+                        opts.append(('event', 0))     # events are interchangeable (their times are symbolic): injected in list order
                 if not opts or (nxt is None and not self.pending):
                     self.active = False
                     raise Deadlock()
@@ -291,16 +291,9 @@ def pacing(cfg):
     return h
 
 
-def events(cfg):
-    """(e) set_event: a future t < until causes a step at t; t >= until is ignored with a warning; outside real-time mode it is an error"""
-    def h(eng):
-        f = frac(cfg['f']) * frac(cfg.get('res', '1'))
-        fp = ['events', cfg['f'], cfg.get('grouped', False), cfg.get('non_rt', False)]
-        desc = f"rt_factor={cfg['f']} grouped={cfg.get('grouped', False)} non_rt={cfg.get('non_rt', False)} typ={cfg.get('typ')}"
-        r = one_run(eng, cfg, strict=False)
-        if not r['ev']:
-            return ('noevent:' + str(r['outcome']), {'nontrivial': False})
-        ev = r['ev'][0]
+def judge_event(eng, cfg, r, ev, f, fp, desc, single):
+    """obligations for one injected external event; returns True if it was a specified (future) event, False if not, 'stop' to end the path"""
+    if True:
         et = ev['t']
         task = ev.get('task')
         texc = None
@@ -308,25 +301,24 @@ def events(cfg):
             texc = task.exception()
         if cfg.get('non_rt'):
             eng.check(isinstance(texc, SimulationError), 'C17.event_nonrt', f'set_event outside real-time mode did not fail with SimulationError (got {texc!r}): {desc}', {'fp': fp})
-            return ('nonrt', {'nontrivial': True})
+            return True
         stepped = [(s, t, c) for s, t, c in r['steps'] if s == cfg.get('target', 'A')]
-        future = (et > ev['progress']) if True else None
         # only events that lie in the future of the simulator at the injection instant are specified
         import math
         tick = math.ceil(ev['clock'] / f)     # the tick real time is in at the injection instant
         is_future = bool(et > ev['last_step']) and bool(et >= tick)
         if not is_future:
-            return ('pastevent:' + str(r['outcome']), {'nontrivial': False})
+            return False
         if bool(et < ev['until']):
             if r['outcome'] != 'done':
                 x = r.get('exc_info', {})
                 eng.alarm('C17.event_run', f"run with an external event at {et} did not complete: {r['outcome']} {x.get('exc_msg', '')} at {x.get('where')}: {desc}",
                           {'fp': fp + [r['outcome']], 'exc': x, 'grouped': cfg.get('grouped', False)})
-                return (r['outcome'], {'nontrivial': True})
+                return 'stop'
             eng.check(texc is None, 'C17.event', f'set_event({et}) raised {texc!r}: {desc}', {'fp': fp})
             hit = [1 for s, t, c in stepped if bool(t == et)]
             eng.check(bool(hit), 'C17.event', lambda: f'set_event({et}) at clock {ev["clock"]} (progress {ev["progress"]}) caused no step at {et}; steps {[(str(t)) for s, t, c in stepped]}: {desc}', {'fp': fp})
-            if not cfg.get('latency') and not cfg.get('late'):
+            if single and not cfg.get('latency') and not cfg.get('late'):
                 # replies are instant and timers exact (only the instant of the external event is arbitrary): the event step
                 # must not be reported too slow, i.e. it is taken when the event arrives or at the next poll, never a period late
                 slow = [m for m in r['warns'] if 'too slow' in m]
@@ -339,6 +331,34 @@ def events(cfg):
             eng.check(r['outcome'] == 'done', 'C17.event_late', f"event at/after until made the run end with {r['outcome']}: {desc}", {'fp': fp})
             hit = [1 for s, t, c in stepped if bool(t == et)]
             eng.check(not hit, 'C17.event_late', f'event at/after until caused a step: {desc}', {'fp': fp})
+        return True
+
+
+def events(cfg):
+    """(e) set_event: a future t < until causes a step at t; t >= until is ignored with a warning; outside real-time mode it is an error"""
+    def h(eng):
+        f = frac(cfg['f']) * frac(cfg.get('res', '1'))
+        fp = ['events', cfg['f'], cfg.get('grouped', False), cfg.get('non_rt', False)]
+        desc = f"rt_factor={cfg['f']} grouped={cfg.get('grouped', False)} non_rt={cfg.get('non_rt', False)} typ={cfg.get('typ')}"
+        r = one_run(eng, cfg, strict=False)
+        if not r['ev']:
+            return ('noevent:' + str(r['outcome']), {'nontrivial': False})
+        nontrivial = False
+        single = len(r['ev']) == 1 and cfg.get('events', 1) == 1
+        if not single and not cfg.get('non_rt'):
+            # several events: the statement specifies future events only; a run into which an event for the simulator's past (or for a
+            # tick that has already begun) was injected is outside the claim as a whole
+            import math
+            for ev in r['ev']:
+                if not (bool(ev['t'] > ev['last_step']) and bool(ev['t'] >= math.ceil(ev['clock'] / f))):
+                    return ('pastevent:' + str(r['outcome']), {'nontrivial': False})
+        for ev in r['ev']:
+            res = judge_event(eng, cfg, r, ev, f, fp, desc, single)
+            if res == 'stop':
+                return (r['outcome'], {'nontrivial': True})
+            nontrivial = nontrivial or res
+        if not nontrivial:
+            return ('pastevent:' + str(r['outcome']), {'nontrivial': False})
         return (r['outcome'], {'nontrivial': True})
     return h
 
@@ -382,6 +402,12 @@ def jobs(tier):
             if not q:
                 out.append(('events', dict(cfgb, f='1/2', latency=True)))
     out.append(('events', {'f': '1', 'res': '1', 'grouped': False, 'n': 1, 'until': 3, 'K': 5, 'typ': 'hybrid', 'events': 1, 'non_rt': True, 'sync': []}))
+    # several external events pending at once, announced in any order of their times
+    for typ, nev in (('event-based', 3), ('hybrid', 2)) + (() if q else (('time-based', 2),)):
+        c = {'f': '1', 'res': '1', 'grouped': False, 'n': 1, 'until': 4, 'K': 6, 'typ': typ, 'events': nev, 'self_steps': typ != 'event-based', 'sync': ['A']}
+        if typ != 'event-based':
+            c['dmax'] = {'A': 3}      # a self-scheduled step up to 3 ticks ahead is pending while the events arrive
+        out.append(('events', c))
     # the event goes to a simulator below a sparsely stepping triggering ancestor (its own step sizes symbolic in 1..3)
     for typ_b in ('event-based', 'hybrid'):
         for grouped in (False,) if q else (False, True):
